@@ -73,6 +73,15 @@ def ms_noloc(o):
     return Counter((d[0], d[1], re.sub(r"/[^ ]*/cfg\d+/", "<dir>/", d[5])) for d in o["diags"])
 
 
+MAP_ORDERED_RULES = ("unused/declaration", "unused/variable", "unused/goto", "subroutine/recursive-call")
+
+
+def seq_ordered(o):
+    """the diagnostics that do not come from a map-ordered pass, IN REPORT ORDER: statement order, includes
+    expanded in place - the same sequence in every run"""
+    return [tuple(d) for d in o["diags"] if d[0] not in MAP_ORDERED_RULES]
+
+
 def go_inc_events(o, prefix="m"):
     """projection of the Go include expansion onto the model's events (module files <prefix>N, snippets snippet::gN)"""
     stmts = []
@@ -130,6 +139,7 @@ def run(ctx):
         "Go map iteration order is modelled as an arbitrary key order per `range` statement",
     ]
     cov = {"violations_by_kind": {}}
+    cov["generator_tables_from_go_source"] = LG.load_generated_tables(os.path.join(V.COQ, "Gen"))
 
     def viol(kind, what, replay, facts=None):
         cov["violations_by_kind"][kind] = cov["violations_by_kind"].get(kind, 0) + 1
@@ -306,7 +316,18 @@ def run(ctx):
     for ci, (pi, order, files, mreq, ids) in enumerate(configs):
         cfg_dirs.append(write_cfg(os.path.join(base, "p"), ci, files))
     reqs = ["dir " + d for d in cfg_dirs]
-    runs = [V.run_batch(impl, reqs, hang_s=10) for _ in range(RUNS)]     # RUNS fresh processes
+    # RUNS fresh processes; from the second on every process receives the configurations in another order, so
+    # that package-level state surviving from one Lint call to the next (caches, counters) shows as a difference
+    runs = []
+    for k in range(RUNS):
+        idx = list(range(len(reqs)))
+        if k:
+            rng.shuffle(idx)
+        rep = V.run_batch(impl, [reqs[i] for i in idx], hang_s=10)
+        back = [None] * len(reqs)
+        for pos, i in enumerate(idx):
+            back[i] = rep[pos]
+        runs.append(back)
     mreqs = [(ci, "infer %d %s" % (rng.randint(1, 10 ** 6), c[3])) for ci, c in enumerate(configs) if c[3]]
     mrep = dict(zip([ci for ci, _ in mreqs], V.run_batch([model], [r for _, r in mreqs], hang_s=30)))
     lint_ok = 0
@@ -343,6 +364,10 @@ def run(ctx):
             rule_hist[d[0] or "(no rule)"] += 1
         # determinism across fresh processes
         for k, o in enumerate(outs[1:], 1):
+            if ms_full(o) == ms_full(o0) and seq_ordered(o) != seq_ordered(o0):
+                viol("order", "the diagnostics outside the map-ordered passes are reported in a different order in run %d (%s)" % (k + 1, progs[pi][0]),
+                     {"files": files, "run1": seq_ordered(o0)[:20], "other": seq_ordered(o)[:20]})
+                break
             if ms_full(o) != ms_full(o0) or o["scopes"] != o0["scopes"] or o["fatal"] != o0["fatal"]:
                 nondet += 1
                 a, b = ms_full(o0), ms_full(o)
